@@ -18,6 +18,8 @@ RxOpen33 == VPat(RRep(RClass(FALSE, <<CRange(97, 99)>>), 65, INF, FALSE))       
 RxPlus == VPat(RRep(RLit(97), 1, INF, FALSE))                                    \* a+
 SOpen33 == [BareStr EXCEPT !.pattern = Some(RxOpen33)]
 SPlus == [BareStr EXCEPT !.pattern = Some(RxPlus)]
+\* (?i:ab)c+  -- a scoped inline flag, outside the modelled grammar
+SFlagGroup == [BareStr EXCEPT !.pattern = Some(VPat(RRaw(<<40, 63, 105, 58, 97, 98, 41, 99, 43>>)))]
 KC == VStr(<<99>>)
 \* schemas that only exist as the result of an operator: [x |-> "add", a, b] is a + b
 SumExpr(a, b) == [x |-> "add", a |-> a, b |-> b]
@@ -34,12 +36,13 @@ SeedSchemas ==
     [BareStr EXCEPT !.pattern = Some(RxNeg)], [BareStr EXCEPT !.pattern = Some(RxNotLit)],
     [BareStr EXCEPT !.pattern = Some(RxMix)], BareBytes,
     R_TypedLen, BareList, [BareList EXCEPT !.min_len = Some(VInt(1)), !.max_len = Some(VInt(2))],
-    R_Dict, R_Any, AnyOf(<<SInt05, SStrAlpha, BareNone>>), SAlias("T", SInt05), R_Body, SOpen33, SPlus }
+    R_Dict, R_Any, AnyOf(<<SInt05, SStrAlpha, BareNone>>), SAlias("T", SInt05), R_Body, SOpen33, SPlus, SFlagGroup }
 
 RECURSIVE RxReadsEnv(_)
 RxReadsEnv(x) ==
   CASE x.r = "notlit" -> TRUE
     [] x.r = "class" -> x.neg
+    [] x.r = "raw" -> FALSE
     [] x.r \in {"group", "rep", "uns"} -> RxReadsEnv(x.body)
     [] x.r = "alt" -> \E i \in DOMAIN x.alts : RxReadsEnv(x.alts[i])
     [] x.r = "seq" -> \E i \in DOMAIN x.parts : RxReadsEnv(x.parts[i])
